@@ -1,8 +1,8 @@
 #!/bin/sh
-# usage: seedconfirm.sh <PROP> <A|B>   -- confirms a sub-agent's seeded change in a scratch worktree
+# usage: [SEEDSRC=dir] seedconfirm.sh <PROP> <LETTER>   -- confirms a sub-agent's seeded change in a scratch worktree
 # (suite passes with the change; demo fails with it and passes without) and files it under /verif/seeded/
 p=$1; v=$2
-src=/tmp/wt_$p/seeded_out
+src=${SEEDSRC:-/tmp/wt_$p/seeded_out}
 id=${p}_$v
 out=/verif/seeded/$id
 sv=/tmp/sv_$id
